@@ -82,7 +82,7 @@ func verifCheckObject(obj *Object, nd *verifNode, mode int) {
 
 func verifCfgT1(nops bool) verifGenCfg {
 	return verifGenCfg{nops: nops, objects: true, arrays: true, strs: true, nums: true, ones: true, maxDepth: 3,
-		strLen: 1, strLen2: -1, keyLen: 1}
+		strLen: 1, strLen2: 0, keyLen: 1} // string values of length 1 or 0 (an empty string stored last has offset == len(buffer))
 }
 
 func verifWalkDoc(T int, nops bool, mode int) {
